@@ -1,0 +1,18 @@
+//go:build verif
+
+// Code added for /verif runtime monitors: exported forwarders to unexported fall-back paths.
+// Compiled only with -tags verif; adds no behaviour.
+
+package fp
+
+// VerifMulGeneric forwards to _mulGeneric (portable CIOS multiplication).
+func VerifMulGeneric(z, x, y *Element) { _mulGeneric(z, x, y) }
+
+// VerifFromMontGeneric forwards to _fromMontGeneric.
+func VerifFromMontGeneric(z *Element) { _fromMontGeneric(z) }
+
+// VerifReduceGeneric forwards to _reduceGeneric.
+func VerifReduceGeneric(z *Element) { _reduceGeneric(z) }
+
+// VerifButterflyGeneric forwards to _butterflyGeneric.
+func VerifButterflyGeneric(a, b *Element) { _butterflyGeneric(a, b) }
